@@ -129,8 +129,24 @@ func PropC04(c *vs.Case, f Factory) error {
 	scn := GenScn(c, GenOpts{Kind: "composite", AllowRolling: true, ClusterParent: 1})
 	scn.Cfg.SSA = false
 	// variants of the selector / label contract
-	variant := c.Weighted(6, 2, 1)
+	variant := c.Weighted(6, 2, 1, 1)
 	switch variant {
+	case 3: // a selector made of negative expressions only: it selects objects without any labels, too
+		if !scn.Cfg.GenerateSelector {
+			spec := scn.Parent["spec"].(map[string]any)
+			spec["selector"] = map[string]any{"matchExpressions": []any{
+				map[string]any{"key": "blocked", "operator": "DoesNotExist"},
+				map[string]any{"key": "app", "operator": "NotIn", "values": []any{"someone-elses"}},
+			}}
+			if tpl, ok := spec["template"].(map[string]any); ok {
+				delete(tpl, "metadata") // revisions carry no labels either
+			}
+			scn.SelLabels = map[string]string{}
+			for i := range scn.Prog.Children {
+				scn.Prog.Children[i].Labels = nil // the hook's children carry no labels at all
+			}
+			c.Class("negative-only-selector")
+		}
 	case 1: // a desired child's labels violate the selector
 		i := c.Int(len(scn.Prog.Children))
 		switch c.Int(3) {
